@@ -12,6 +12,12 @@ VERIF = Path(__file__).resolve().parent.parent
 
 # id -> (level category, technique, level text, level note, design section)
 CHECKS = {
+    "C14": (
+        "exploration",
+        "Hypothesis search over (towers x steps, strategy, workers, parent threads, cache switch, delay table) with harness-owned worker completion order, against serially computed single runs",
+        "Differential: every driver's output must equal the reference single runs (keys in configuration order, lists in time order, metadata, fields to 1e-12; bit-identity counted) under generated schedules in which workers finish in a drawn order.",
+        "Completion order of worker processes is owned via injected delays; fork start method; thread interleavings inside a worker are not owned.",
+    ),
     "C12": (
         "exploration",
         "Hypothesis RuleBasedStateMachine over solve / set_threads / reset_fft_manager / truncated-wisdom histories against a model (first result per (spec, threads)) and per-spec fresh-process references",
